@@ -38,6 +38,19 @@ Theorem C09_reachable_wf : forall p idx ops, Inv (run (new_machine p idx) ops).
 Proof. intros. apply Inv_run. apply Inv_new. Qed.
 Print Assumptions C09_reachable_wf.
 
+(* in the documented domain (signature indices below the participant count, forced update and
+   CheckUpdate only with a current state, apps that do not panic by design) no operation panics on a
+   machine reached from a fresh one through such operations: the `<> PANIC` hypothesis of
+   C09_success_iff_pre is met on every run the property quantifies over *)
+Theorem C09_no_panic_reachable : forall p idx ops o,
+  (N.to_nat idx < length (mp_parts p))%nat -> run_ok (new_machine p idx) (ops ++ [o]) ->
+  snd (step (run (new_machine p idx) ops) o) <> PANIC.
+Proof.
+  intros p idx ops o Hidx R.
+  exact (no_panic_reachable (new_machine p idx) ops o (Inv_new p idx) (Inv2_new p idx Hidx) R).
+Qed.
+Print Assumptions C09_no_panic_reachable.
+
 (* T4: the code's transition table and signing phases are the documented ones *)
 Theorem C09_generated_table_is_documented : forall f t, valid_transition_tbl f t = doc_transition f t.
 Proof. exact tbl_doc. Qed.
